@@ -37,6 +37,36 @@ Fixpoint list_eqb (a b : list N) : bool :=
   | x :: a', y :: b' => (x =? y) && list_eqb a' b'
   | _, _ => false
   end.
+(* str::eq_ignore_ascii_case on names (lists of Unicode scalar values; on the UTF-8 bytes of a Rust
+   str the test is the same: a byte >= 0x80 is compared as it is, so two strings agree up to ASCII
+   case exactly when their scalar values do).  [name_key]: the representative of a name's class.
+   [MS-CFB] 2.6.4 compares names after conversion to upper case (simple case conversion of the
+   UTF-16 code units); the reader, and this specification with it, folds the ASCII letters only —
+   see the note at [upper_unit] and notes/C13.md. *)
+Definition ascii_upper (c : N) : N := if (97 <=? c) && (c <=? 122) then c - 32 else c.
+Definition name_key (n : list N) : list N := map ascii_upper n.
+Definition name_eqb (a b : list N) : bool := list_eqb (name_key a) (name_key b).
+(* another case spelling of a name / of a path: the ASCII letters at the flagged positions change
+   case (missing flags: as written).  Every spelling that [MS-CFB] 2.6.4 identifies with the name
+   through its ASCII letters is of this form. *)
+Definition flip_case (c : N) : N :=
+  if (97 <=? c) && (c <=? 122) then c - 32 else if (65 <=? c) && (c <=? 90) then c + 32 else c.
+Fixpoint respell (flags : list bool) (n : list N) : list N :=
+  match n, flags with
+  | [], _ => []
+  | _, [] => n
+  | c :: n', u :: flags' => (if u then flip_case c else c) :: respell flags' n'
+  end.
+Fixpoint respell_path (flags : list (list bool)) (path : list (list N)) : list (list N) :=
+  match path, flags with
+  | [], _ => []
+  | _, [] => path
+  | n :: path', f :: flags' => respell f n :: respell_path flags' path'
+  end.
+Fixpoint mem_name (x : list N) (l : list (list N)) : bool :=
+  match l with [] => false | y :: r => name_eqb y x || mem_name x r end.
+Fixpoint nodup_namesb (l : list (list N)) : bool :=
+  match l with [] => true | x :: r => negb (mem_name x r) && nodup_namesb r end.
 Fixpoint memN (x : N) (l : list N) : bool :=
   match l with [] => false | y :: r => (y =? x) || memN x r end.
 Fixpoint nodupb (l : list N) : bool :=
@@ -257,10 +287,10 @@ Definition cfb_new (fuel : nat) (file : list N) : outcome (cfb * list N) :=
              mini_sectors := {| sdata := []; ssize := 64 |}; mini_fats := [] |}, r3)
   end.
 
-(* the flat scan `directories.iter().find(|d| d.name == name)` (all there was before the fix of G8;
-   now the lookup of a file that carries no hierarchy) *)
+(* the flat scan `directories.iter().find(|d| d.name.eq_ignore_ascii_case(name))` (all there was
+   before the fix of G8; now the lookup of a file that carries no hierarchy) *)
 Definition find_dir (name : list N) (ds : list dirent) : option dirent :=
-  find (fun d => list_eqb (d_name d) name) ds.
+  find (fun d => name_eqb (d_name d) name) ds.
 
 (* slice::get(i) with an index that may be as large as 0xFFFFFFFF (no unary number is built) *)
 Fixpoint nthN (A : Type) (l : list A) (i : N) : option A :=
@@ -308,9 +338,10 @@ Definition children (ds : list dirent) (parent : N) : list N :=
     end
   end.
 
-(* the closure of find: the entry with that id exists and carries the name (directories.get, no index) *)
+(* the closure of find: the entry with that id exists and carries the name up to ASCII case
+   (directories.get, no index; d.name.eq_ignore_ascii_case(name)) *)
 Definition name_is (ds : list dirent) (name : list N) (i : N) : bool :=
-  match nthN ds i with Some d => list_eqb (d_name d) name | None => false end.
+  match nthN ds i with Some d => name_eqb (d_name d) name | None => false end.
 
 (* the for loop of Cfb::find: id = self.children(id).into_iter().find(..)? per path component *)
 Fixpoint find_from (ds : list dirent) (id : N) (path : list (list N)) : option N :=
@@ -548,7 +579,7 @@ Definition fuel_for (l : layout) : nat := S (length (l_difat_ids l)).
 (* ------------------------------------------------------------------ validity *)
 Definition valid_nameb (n : list N) : bool :=
   negb (list_eqb n []) && forallb (fun ch => scalarb ch && negb (ch =? 0)) n &&
-  (length (utf16_encode n) <=? 31)%nat && negb (list_eqb n ROOT_NAME).
+  (length (utf16_encode n) <=? 31)%nat && negb (name_eqb n ROOT_NAME).
 
 Definition all_names (c : container) : list (list N) := c_storages c ++ map fst (c_streams c).
 
@@ -557,10 +588,11 @@ Definition parent_of (c : container) (k : nat) : N := nth k (c_parents c) 0.
 Definition item_keys (c : container) : list (N * list N) :=
   combine (map (parent_of c) (seq 0 (length (all_names c)))) (all_names c).
 Fixpoint mem_key (x : N * list N) (l : list (N * list N)) : bool :=
-  match l with [] => false | y :: r => ((fst y =? fst x) && list_eqb (snd y) (snd x)) || mem_key x r end.
+  match l with [] => false | y :: r => ((fst y =? fst x) && name_eqb (snd y) (snd x)) || mem_key x r end.
 Fixpoint nodup_keyb (l : list (N * list N)) : bool :=
   match l with [] => true | x :: r => negb (mem_key x r) && nodup_keyb r end.
-(* MS-CFB: names are unique among the children of ONE storage (not over the whole file); every
+(* MS-CFB: names are unique — under the comparison of 2.6.4, i.e. up to case — among the children
+   of ONE storage (not over the whole file): "Workbook" and "WORKBOOK" cannot both be in it; every
    parent is the root or a storage, and the parent of the j-th storage is the root or one of the
    storages before it (no cycle).  With c_parents = [] this is "all names distinct". *)
 Definition hier_okb (c : container) : bool :=
@@ -569,7 +601,7 @@ Definition hier_okb (c : container) : bool :=
   forallb (fun j => parent_of c j <=? N.of_nat j) (seq 0 (length (c_storages c))) &&
   nodup_keyb (item_keys c).
 (* the stronger condition the flat lookup of calamine is always right under *)
-Definition names_uniqueb (c : container) : bool := nodup_listb (all_names c).
+Definition names_uniqueb (c : container) : bool := nodup_namesb (all_names c).
 
 Definition stream_okb (ss : N) (p : list N * list N * list N) : bool :=
   let '((_, b), ch) := p in
@@ -601,7 +633,7 @@ Definition valid_layout c l : Prop := valid_layoutb c l = true.
 
 (* the specification: what reading stream [name] must give *)
 Definition spec_stream (c : container) (name : list N) : option (list N) :=
-  match find (fun p => list_eqb (fst p) name) (c_streams c) with
+  match find (fun p => name_eqb (fst p) name) (c_streams c) with
   | Some p => Some (snd p)
   | None => None
   end.
@@ -618,7 +650,7 @@ Fixpoint min_slot (n : list N) (tbl : list (N * (list N * N * N * N))) : option 
   match tbl with
   | [] => None
   | (s, it) :: r =>
-    if list_eqb (item_name it) n then
+    if name_eqb (item_name it) n then
       match min_slot n r with Some s' => Some (N.min s s') | None => Some s end
     else min_slot n r
   end.
@@ -634,11 +666,12 @@ Definition obj_slot (l : layout) (p : N) : N :=
   if p =? 0 then 0 else nth (N.to_nat p - 1) (l_slots l) 0.
 
 (* specification of a lookup: the child named n of object p — the (k+1)-th object, where k is the
-   first index with that name and that parent (hier_okb: there is at most one) *)
+   first index with that name, in any case spelling ([MS-CFB] 2.6.4), and that parent (hier_okb:
+   there is at most one) *)
 Fixpoint child_index (c : container) (p : N) (n : list N) (k : nat) (names : list (list N)) : option nat :=
   match names with
   | [] => None
-  | n' :: r => if list_eqb n' n && (parent_of c k =? p) then Some k else child_index c p n (S k) r
+  | n' :: r => if name_eqb n' n && (parent_of c k =? p) then Some k else child_index c p n (S k) r
   end.
 Fixpoint resolve (c : container) (p : N) (path : list (list N)) : option N :=
   match path with
@@ -700,8 +733,10 @@ Definition vba_stream_path (c : cfb) (name : list N) : list (list N) := vba_stor
 (* ------------------------------------------------------------------ linked trees *)
 (* MS-CFB 2.6.4: the children of a storage form a binary search tree ordered by (UTF-16 length,
    then upper-cased code units); here upper-casing covers a-z only (the simple case mapping of
-   other letters is not modelled: such names compare by code unit).  Colours are not checked
-   (every entry is written black). *)
+   other letters is not modelled: such names compare by code unit — for the sibling order and,
+   [name_eqb], for the lookup; the reader folds ASCII letters only, the table of simple case
+   mappings, whose Unicode version depends on the writer according to 2.6.4, is left out on
+   purpose).  Colours are not checked (every entry is written black). *)
 Definition upper_unit (u : N) : N := if (97 <=? u) && (u <=? 122) then u - 32 else u.
 Fixpoint units_ltb (a b : list N) : bool :=
   match a, b with
